@@ -79,12 +79,19 @@ deriving DecidableEq, Repr
 /-- the read-loop IR emitted by `factgen` -/
 inductive RInstr
   | getBuf | deadline | readUDP | contIfErr | countUDP | enqueueUDP | log
+  | closeUDP                       -- after the loop: `close(xUDPCh)` (the workers' receive then reports `!ok`)
   | unrecognised (s : String)
 deriving DecidableEq, Repr
 
 /-- the read loop the model implements (`RxPhase`): `b := Get(); SetReadDeadline; n, raddr, err :=
 ReadFromUDP(b); if err != nil { continue }; UDPCount++; ch <- {raddr, b[:n]}` -/
 def canonicalRx : List RInstr := [.getBuf, .deadline, .readUDP, .contIfErr, .countUDP, .enqueueUDP]
+
+/-- what follows the read loop in `run()`: once the stop flag ends the loop the reader closes the UDP channel
+it alone sends on (F21 repair; before it `shutdown()` closed the channel, under a send possibly in flight).
+For the workers this is the `quit` branch of `recvOrQuit` (`msg, ok = <-ch; if !ok { break LOOP }`), which the
+model lets any worker take at any `recvOrQuit`; no datagram is touched after it. -/
+def canonicalRxTail : List RInstr := [.closeUDP]
 
 /-- where the read loop is in its iteration -/
 inductive RxPhase
